@@ -118,18 +118,11 @@ theorem GoodS.toPublished {m : Model (Ext K)} {an : Analyzer (Ext K)} {e : Exp (
   ⟨fun x hx => (inScope_applyToDomain an m.domain x).mpr (h.vars x hx), h.fin,
     fun ρ hd => h.nc ρ (htight ρ hd)⟩
 
-theorem VerdictDef.toPublished {m : Model (Ext K)} {an : Analyzer (Ext K)} {c : Constraint (Ext K)}
-    (htight : ∀ ρ : String → K, DomSat ρ (an.applyToDomain m.domain) → DomSat ρ m.domain)
-    (h : VerdictDef m.domain c) : VerdictDef (an.applyToDomain m.domain) c := by
-  intro hA l' r' hl hr hv
-  obtain ⟨h1, h2⟩ := h hA l' r' hl hr hv
-  exact ⟨fun ρ hd => h1 ρ (htight ρ hd), fun ρ hd => h2 ρ (htight ρ hd)⟩
-
 theorem logicModel_applyToDomain {m : Model (Ext K)} (an : Analyzer (Ext K))
     (htight : ∀ ρ : String → K, DomSat ρ (an.applyToDomain m.domain) → DomSat ρ m.domain)
     (hm : LogicModel m m.domain) : LogicModel m (an.applyToDomain m.domain) :=
   ⟨hm.obj.toPublished htight, fun c hc => ⟨(hm.cons c hc).lhs.toPublished htight,
-    (hm.cons c hc).rhs.toPublished htight, (hm.cons c hc).verdict.toPublished htight⟩⟩
+    (hm.cons c hc).rhs.toPublished htight⟩⟩
 
 /-- `DomRel` and `BoxEnforced` for the `b`, `d` the pipeline computes, on a model with logic. -/
 theorem pipeline_hyps_logic {m : Model (Ext K)} {t : K} (ht : 0 ≤ t) (maxSteps : Nat)
